@@ -43,6 +43,9 @@ type Obs struct {
 	OK    bool   `json:"ok,omitempty"`
 	Gas   uint64 `json:"gas,omitempty"`
 	Seq   []SObs `json:"seq,omitempty"`
+	// whole Qi transaction (qitx.go)
+	QU []QEv `json:"qu,omitempty"`
+	QE []QEv `json:"qe,omitempty"`
 }
 
 func (o Obs) Coq() string {
@@ -63,6 +66,11 @@ func (o Obs) Coq() string {
 		return "OBool " + hlib.CoqBool(o.Bool)
 	case "qi":
 		return "OQi " + string(o.A)
+	case "qitx":
+		if !o.OK {
+			return "OQiTx None"
+		}
+		return fmt.Sprintf("OQiTx (Some (%s, %s))", coqEvs(o.QU), coqEvs(o.QE))
 	case "grind":
 		if o.OK {
 			return fmt.Sprintf("OGrind (GOk %s %d)", hlib.CoqBytes(o.A), o.Gas)
@@ -114,7 +122,11 @@ type Case struct {
 	// sender-cache histories (stored.go)
 	Tx  *TxDesc `json:"tx,omitempty"`
 	Ops []SOp   `json:"ops,omitempty"`
-	Obs Obs     `json:"obs"`
+	// whole Qi transaction (qitx.go)
+	Outs [][]byte `json:"outs,omitempty"`
+	Data []byte   `json:"data,omitempty"`
+	Ptn  uint64   `json:"ptn,omitempty"`
+	Obs  Obs      `json:"obs"`
 }
 
 func coqStr(s string) string { return hlib.CoqBytes([]byte(s)) }
@@ -777,6 +789,9 @@ func main() {
 		case "ISender":
 			runSenderCase(c, mon, emit)
 			continue
+		case "IQiTx":
+			runQiTx(c, mon, emit)
+			continue
 		}
 		func() {
 			defer func() {
@@ -815,6 +830,7 @@ func main() {
 		senderSweep(hlib.NewRng(f.Seed^0x16c0ffee).Fork(), mon, f.Tier)
 		evmAndState(rng.Fork(), mon, emit, f.Tier, f.N)
 		qiOutputs(rng.Fork(), mon, emit, f.Tier, f.N)
+		qiTxs(hlib.NewRng(f.Seed^0x16a17c5).Fork(), mon, emit, f.Tier, f.N)
 		rep.Exhaustive = true
 		rep.Note("exhaustive part: all 65536 two-byte prefixes (random 18-byte tails) x 273 locations (256 zones, 16 regions, prime): class of BytesToAddress and IsInChainScope at every location; every observable (bytes, Location(), ledger predicates, InternalAnd{Quai,Qi}Address, ContainsAddress) of {BytesToAddress, Bytes20ToAddress, HexToAddress, Address.ProtoDecode, Address.Scan} and CheckIfBytesAreInternalAndQiAddress / IsConversionOutput at the zone of the address, zone (0,0), one rotating zone, one region and prime (quick tier) or at all locations (thorough tier); {DecodeRLP, UnmarshalText, UnmarshalJSON, MixedcaseAddress.UnmarshalJSON} once per prefix. Random part: lengths 0..40, malformed text, protobuf wire decode of transactions, GrindContract, CREATE/CREATE2 through the EVM and the interpreter, StateDB.createObject entry points, ProcessQiTx outputs")
 	}
